@@ -43,13 +43,21 @@ class FakeSocket:
         pass
 
 
+class SendFault(OSError):
+    """the injected failure of the send side (closed transport, encryption error, ...)"""
+
+
 class FakeTransport:
-    def __init__(self, on_write):
+    def __init__(self, on_write, env=None):
         self.on_write = on_write
+        self.env = env
         self.closed = False
 
     def write(self, data):
         self.on_write(bytes(data))
+        if self.env is not None and self.env.fault == "write":
+            self.env.fault = None
+            raise SendFault("verif: write failed")
 
     def get_extra_info(self, name, default=None):
         return FakeSocket() if name == "socket" else default
@@ -87,12 +95,15 @@ class Env:
         self.tasks = {}
         self.wire = {}         # w -> identifier seen on the wire for request w
         self.cur = None        # request whose first step is running (for attributing writes)
+        self.fault = None      # "write" / "processor": the send side fails for the request being started
+        self.script = []
         self.keep = []
 
     # to be provided: async setup(), call(w, opts) -> coroutine, encode(m) -> bytes, feed(bytes), on_write(data)
 
     async def waiter(self, w, opts):
         self.cur = w
+        self.fault = opts.get("fault")
         try:
             r = await self.call(w, opts)
             self.log.append(("ret", w, self.value(r)))
@@ -109,7 +120,37 @@ def tag_of(text):
 
 
 # ----------------------------------------------------------------------------- MRP
-MRP_TYPES = None
+# listeners of a run: [index of the message type, "sync" | "async", filter]; registered in this order
+DEFAULT_LISTENERS = [[0, "sync", None], [0, "async", None], [0, "sync", None], [1, "sync", None]]
+FILTERS = {
+    "all": lambda message: True,
+    "none": lambda message: False,
+    "odd": lambda message: (tag_of(message.uniqueIdentifier) or 0) % 2 == 1,
+}
+
+
+def accepts(filt, tag):
+    return True if filt in (None, "all") else (False if filt == "none" else tag % 2 == 1)
+
+
+def listeners_of(case, ty):
+    return [l for l in (case.obs["listeners"] or []) if l["type"] == ty]
+
+
+def judge_dispatch(case, m, key, why):
+    """message m must have been dispatched: every listener of its type whose filter accepts it saw it exactly
+    once (a rejecting one never), nobody saw it under another type"""
+    errs = []
+    ty = case.obs["types"][m["m"].get("type", 0)]
+    for l in listeners_of(case, ty):
+        want = 1 if accepts(l["filt"], m["tag"]) else 0
+        n = sum(1 for (x, y, g) in case.listens if x == l["who"] and g == m["tag"])
+        if n != want:
+            errs.append((key, "%s T%d: listener #%d (%s, filter %s) of type %d saw it %d times instead of %d" % (
+                why, m["tag"], l["who"], l["kind"], l["filt"], ty, n, want)))
+    if any(g == m["tag"] and y != ty for (x, y, g) in case.listens):
+        errs.append((key, "T%d dispatched under a wrong type" % m["tag"]))
+    return errs
 
 
 class MrpEnv(Env):
@@ -140,7 +181,7 @@ class MrpEnv(Env):
 
         class Conn(MrpConnection):
             async def connect(self):
-                self.connection_made(FakeTransport(on_write))
+                self.connection_made(FakeTransport(on_write, env))
 
         class Srp:
             pairing_id = b"verif"
@@ -165,7 +206,7 @@ class MrpEnv(Env):
             # object that is forced into the connected state so that the scripts still show what fails
             from pyatv.protocols.mrp.protocol import ProtocolState
             self.conn = Conn("10.0.0.2", 2222, asyncio.get_event_loop())
-            self.conn.connection_made(FakeTransport(on_write))
+            self.conn.connection_made(FakeTransport(on_write, env))
             self.proto = MrpProtocol(self.conn, Srp(), Service(), InfoSettings())
             self.proto._state = ProtocolState.READY
         self.cur = None
@@ -181,12 +222,19 @@ class MrpEnv(Env):
                 env.log.append(("listen", who, ty, tag_of(message.uniqueIdentifier)))
             return f
 
-        t0, t1, _ = self.types
-        self.proto.listen_to(t0, mk("a", t0))
-        self.proto.listen_to(t0, mka("b", t0))
-        self.proto.listen_to(t0, mk("c", t0))
-        self.proto.listen_to(t1, mk("d", t1))
-        self.listeners = {t0: ["a", "b", "c"], t1: ["d"]}
+        spec = DEFAULT_LISTENERS
+        for op in self.script:
+            if op[0] == "listeners":
+                spec = op[1]
+        self.listeners = []
+        for who, (ti, kind, filt) in enumerate(spec):
+            ty = self.types[ti]
+            func = (mka if kind == "async" else mk)(who, ty)
+            if filt is None:
+                self.proto.listen_to(ty, func)
+            else:
+                self.proto.listen_to(ty, func, message_filter=FILTERS[filt])
+            self.listeners.append({"who": who, "type": ty, "kind": kind, "filt": filt})
 
     def frame(self, msg):
         from pyatv.support.variant import write_variant
@@ -262,7 +310,7 @@ class CompanionEnv(Env):
             credentials = None
 
         self.conn = CompanionConnection(asyncio.get_event_loop(), "10.0.0.2", 2222)
-        self.conn.connection_made(FakeTransport(on_write))
+        self.conn.connection_made(FakeTransport(on_write, env))
         self.proto = CompanionProtocol(self.conn, None, Service())
 
         class L:
@@ -328,8 +376,14 @@ class HttpEnv(Env):
                 env.wire[env.cur] = int(m.group(1)) if m else None
                 env.cur = None
 
-        self.conn = HttpConnection()
-        self.conn.connection_made(FakeTransport(on_write))
+        def processor(data):
+            if env.fault == "processor":
+                env.fault = None
+                raise SendFault("verif: send processor failed")
+            return data
+
+        self.conn = HttpConnection(send_processor=processor)
+        self.conn.connection_made(FakeTransport(on_write, env))
 
     def call(self, w, opts):
         return self.conn.send_and_receive("GET", "/r%d" % w, allow_error=opts.get("allow", False),
@@ -396,6 +450,7 @@ ENVS = {"mrp": MrpEnv, "companion": CompanionEnv, "http": HttpEnv, "rtsp": RtspE
 # ----------------------------------------------------------------------------- driver
 async def drive(transport, script):
     env = ENVS[transport]()
+    env.script = script
     await env.setup()
     loop = asyncio.get_event_loop()
     log = env.log
@@ -413,7 +468,7 @@ async def drive(transport, script):
         await settle()
         return True
 
-    ops = [list(o) for o in script]
+    ops = [list(o) for o in script if o[0] != "listeners"]
     i = 0
     seq = [0]
 
@@ -525,7 +580,13 @@ class Case:
                 self.outcome[w] = tuple(e[0:1] + e[2:4])
                 self.completion_order.append(w)
                 merged = j > 0 and log[j - 1][0] == "http_ret" and log[j - 1][1] == w
-                if (e[0] == "exc" and e[2] == "CancelledError") or \
+                if e[0] == "exc" and e[2] == "SendFault":
+                    self.how[w] = "sendfault"          # the request was never sent
+                    for k in range(len(self.events) - 1, -1, -1):
+                        if self.events[k] == ("req", w):
+                            self.events[k] = ("reqfail", w)
+                            break
+                elif (e[0] == "exc" and e[2] == "CancelledError") or \
                         (cur[0] == "cancel" and cur[1] == w and e[0] == "exc" and e[4] == "CancelledError"):
                     self.how[w] = "cancel"     # (a KeyError raised while handling the cancellation included)
                 elif cur[0] == "timeout" or (cur[0] == "race" and e[0] == "exc" and "TimeoutError" in (e[2], e[4])):
@@ -646,15 +707,7 @@ def oracle(case):
             if not unsolicited(case, m):
                 continue
             if t == "mrp":
-                ty = case.obs["types"][m["m"].get("type", 0)]
-                for who in (case.obs["listeners"] or {}).get(str(ty), (case.obs["listeners"] or {}).get(ty, [])):
-                    n = sum(1 for (x, y, g) in case.listens if x == who and g == m["tag"])
-                    if n != 1:
-                        errs.append(("C03:mrp:unsolicited-not-once",
-                                     "listener %s of type %d saw unsolicited T%d %d times" % (who, ty, m["tag"], n)))
-                n_other = sum(1 for (x, y, g) in case.listens if g == m["tag"] and y != ty)
-                if n_other:
-                    errs.append(("C03:mrp:unsolicited-not-once", "T%d dispatched under a wrong type" % m["tag"]))
+                errs += judge_dispatch(case, m, "C03:mrp:unsolicited-not-once", "unsolicited")
             else:
                 n = sum(1 for (x, y, g) in case.listens if g == m["tag"])
                 if n != 1:
@@ -682,15 +735,10 @@ def oracle(case):
                    for w in group):
                 continue
             cancelled = any(case.how.get(w) == "cancel" for w in group)
-            ty = case.obs["types"][mm.get("type", 0)]
-            for who in (case.obs["listeners"] or {}).get(ty, []):
-                n = sum(1 for (x, y, g) in case.listens if x == who and g == m["tag"])
-                if n != 1:
-                    ended = sorted((w, case.how.get(w)) for w in group)
-                    errs.append(("C03:mrp:cancelled-request-entry-leaks" if cancelled
-                                 else "C03:mrp:late-answer-not-dispatched",
-                                 "message T%d arrived after the request(s) under its identifier had ended %s; "
-                                 "listener %s of type %d saw it %d times" % (m["tag"], ended, who, ty, n)))
+            ended = sorted((w, case.how.get(w)) for w in group)
+            errs += judge_dispatch(case, m, "C03:mrp:cancelled-request-entry-leaks" if cancelled
+                                   else "C03:mrp:late-answer-not-dispatched",
+                                   "arrived after the request(s) under its identifier had ended %s:" % ended)
     # a request whose answer never arrived before its timer fired gets a timeout error
     for w in case.req_at:
         if case.how.get(w) == "timeout":
@@ -755,7 +803,9 @@ def model_events(case):
     out = []
     for ev in case.events:
         k = ev[0]
-        if k == "req":
+        if k == "reqfail":
+            out.append("%sReqFail %s" % ({"mrp": "M", "companion": "C", "http": "H", "rtsp": "R"}[t], cw(ev[1])))
+        elif k == "req":
             w = ev[1]
             o = case.req_opts[w]
             if t == "mrp":
@@ -825,7 +875,9 @@ def model_outcomes(case):
         else:
             name, text = o[1], o[2]
             pre = {"mrp": "M", "companion": "C", "http": "H", "rtsp": "H"}[t]
-            if name == "TimeoutError":
+            if name == "SendFault":
+                res.append("%sSendErr %s" % (pre, cw(w)))
+            elif name == "TimeoutError":
                 res.append("%sTimeoutErr %s" % (pre, cw(w)))
             elif name == "CancelledError":
                 res.append("%sCancelled %s" % (pre, cw(w)))
@@ -853,13 +905,37 @@ def _cseq_of_tag(case, tag):
     return None
 
 
+def mrp_reference_listeners(case):
+    prim = {}
+    for l in case.obs["listeners"] or []:
+        if l["filt"] in (None, "all") and l["type"] not in prim:
+            prim[l["type"]] = l["who"]
+    return prim
+
+
+def dispatch_cases(case):
+    """for every message that reached some listener: (listeners of its type with the verdict of their filter,
+    listeners called, in call order) - compared with dispatch_calls in Coq"""
+    out = []
+    if case.t != "mrp":
+        return out
+    for m in case.msgs:
+        ty = case.obs["types"][m["m"].get("type", 0)]
+        called = [x for (x, y, g) in case.listens if g == m["tag"] and y == ty]
+        if not called:
+            continue
+        ls = ["(%s, %s)" % (common.cbool(accepts(l["filt"], m["tag"])), cw(l["who"])) for l in listeners_of(case, ty)]
+        out.append("([%s], [%s])" % ("; ".join(ls), "; ".join(cw(x) for x in called)))
+    return out
+
+
 def model_heard(case):
     if case.t == "mrp":
-        # the first listener of each type is the reference; the oracle checks the others
-        prim = {}
-        for ty, whos in (case.obs["listeners"] or {}).items():
-            prim[whos[0]] = int(ty)
-        return ["MListen %s %s" % (common.cN(y), common.cN(g)) for (x, y, g) in case.listens if x in prim and g is not None]
+        # per type the first listener without a rejecting filter is the reference for "dispatch was called";
+        # what every single listener saw is judged by the oracle and by disp_check
+        prim = mrp_reference_listeners(case)
+        return ["MListen %s %s" % (common.cN(y), common.cN(g)) for (x, y, g) in case.listens
+                if prim.get(y) == x and g is not None]
     if case.t == "companion":
         return ["CListen %s" % common.cN(g) for (x, y, g) in case.listens if g is not None]
     return []
@@ -873,7 +949,7 @@ def coq_case(case):
     ocs = "[" + "; ".join(oc) + "]"
     hs = "[" + "; ".join(model_heard(case)) + "]"
     if case.t == "mrp":
-        types = sorted(int(k) for k in (case.obs["listeners"] or {}))
+        types = sorted(mrp_reference_listeners(case))
         return "(%s, %s, %s, %s)" % (ev, common.clist(types, common.cN), ocs, hs)
     if case.t == "companion":
         first = None
@@ -937,7 +1013,7 @@ def unsol_msg(t, rng, tag, variant=0, xfor=None, ukind=None):
 
 
 def build(t, base, timeout_w=None, timeout_pos=None, unsol_pos=None, variant=0, rng=None, xfor=None, ukind=None,
-          reuse=None):
+          reuse=None, fault=None):
     """base: list of ("q", i) / ("a", i).  Returns a script."""
     script = []
     tag = 1
@@ -948,8 +1024,12 @@ def build(t, base, timeout_w=None, timeout_pos=None, unsol_pos=None, variant=0, 
                 script.append(["msg", [unsol_msg(t, rng, 90, variant, xfor, ukind)]])
         if timeout_pos == pos:
             script.append(["timeout"])
+        if kind == "a" and fault is not None and fault[0] == i:
+            continue                  # a request that was never sent is never answered
         if kind == "q":
             opts = {}
+            if fault is not None and fault[0] == i:
+                opts["fault"] = fault[1]
             if t != "rtsp":
                 opts["timeout"] = 3 if i == timeout_w else 50 + i
             if t == "mrp" and variant % 4 == 3 and i == 0:
@@ -975,6 +1055,8 @@ def _http_busy(script):
     """plain HTTP has no identifiers: a spurious response is only distinguishable when no request is pending"""
     pend = 0
     for op in script:
+        if op[0] == "req" and (op[2] if len(op) > 2 else {}).get("fault"):
+            continue
         if op[0] == "req":
             pend += 1
         elif op[0] == "msg":
@@ -1008,6 +1090,17 @@ def exhaustive_scripts(t, nmax):
             if t == "rtsp":
                 for tp in range(1, L + 1):
                     out.append(build(t, base, timeout_pos=tp))
+            # the send side fails for request w (transport.write raises; for HTTP/RTSP also the send processor):
+            # the other requests of every interleaving still get exactly their own answers
+            for w in range(n):
+                for kind in (("write", "processor") if t in ("http", "rtsp") else ("write",)):
+                    out.append(build(t, base, fault=(w, kind)))
+                    for w2 in range(n):
+                        if w2 != w:
+                            qpos, apos = base.index(("q", w2)), base.index(("a", w2))
+                            if t == "rtsp":
+                                continue
+                            out.append(build(t, base, fault=(w, kind), timeout_w=w2, timeout_pos=apos))
             if t == "companion":
                 # an event / a request from the device / an event with a foreign id, whose "_x" equals the
                 # transaction id of request x (or of nobody), at every position
@@ -1041,6 +1134,37 @@ def exhaustive_scripts(t, nmax):
     return res
 
 
+LISTENER_ALPHABET = [(k, f) for k in ("sync", "async") for f in (None, "all", "none", "odd")]
+
+
+def listener_sets():
+    """0..3 listeners on the first message type in every order over sync/async x no filter / accepting /
+    rejecting / tag-dependent filter; the second type gets 0..2 of them"""
+    out = []
+    j = 0
+    for n in range(0, 4):
+        for combo in itertools.product(LISTENER_ALPHABET, repeat=n):
+            spec = [[0, k, f] for (k, f) in combo]
+            second = list(itertools.product(LISTENER_ALPHABET, repeat=j % 3))
+            for (k, f) in (second[j % len(second)] if second else ()):
+                spec.append([1, k, f])
+            j += 1
+            out.append(spec)
+    return out
+
+
+def dispatch_probe(spec):
+    """unsolicited messages (odd and even tags, both listened types), the late answer of a timed-out request
+    and of a cancelled one - under the given listener set"""
+    return [["listeners", spec],
+            ["msg", [{"tag": 90, "ident": 1, "type": 0}]],
+            ["msg", [{"tag": 91, "type": 0}, {"tag": 92, "type": 1}]],
+            ["req", 0, {"timeout": 3}], ["req", 1, {"timeout": 50}], ["req", 2, {"timeout": 51}],
+            ["timeout"], ["cancel", 1],
+            ["msg", [{"tag": 11, "for": 0, "type": 0}]], ["msg", [{"tag": 12, "for": 1, "type": 1}]],
+            ["msg", [{"tag": 13, "for": 2, "type": 0}]], ["msg", [{"tag": 93, "ident": 2, "type": 1}]]]
+
+
 def random_script(t, rng, nmax):
     """structured random history: up to nmax requests, answers in any order (FIFO for plain HTTP), batches,
     duplicates, late answers, error statuses, races, cancellations, junk"""
@@ -1068,6 +1192,8 @@ def random_script(t, rng, nmax):
             m["code"] = rng.choice((200, 200, 200, 204, 401, 403, 404, 500))
         return m
 
+    if t == "mrp" and rng.random() < 0.7:
+        script.append(["listeners", rng.choice(LSETS)])
     steps = rng.randint(n, 3 * n + 4)
     nreq = 0
     for _ in range(steps):
@@ -1089,6 +1215,13 @@ def random_script(t, rng, nmax):
                         opts["copy"] = True
             if t == "companion" and rng.random() < 0.2:
                 opts = {"auth": rng.choice((3, 4, 5, 6)), "timeout": opts.get("timeout", 60)}
+            if rng.random() < 0.08:
+                opts["fault"] = rng.choice(("write", "processor")) if t in ("http", "rtsp") else "write"
+                opts.pop("reuse", None)
+                opts.pop("copy", None)
+                script.append(["req", nreq, opts])      # never sent: not answered, not re-used
+                nreq += 1
+                continue
             script.append(["req", nreq, opts])
             issued.append(nreq)
             unanswered.append(nreq)
@@ -1141,6 +1274,9 @@ def random_script(t, rng, nmax):
                 ])
             script.append(["msg", [m]])
     return script
+
+
+LSETS = listener_sets()
 
 
 def script_opts(script, w):
@@ -1200,9 +1336,14 @@ def run(ctx):
         evaluate(ctx, d["transport"], d["script"], cases, "corpus")
     for t in TRANSPORTS:
         first = True
-        for s in exhaustive_scripts(t, nmax):
+        for j, s in enumerate(exhaustive_scripts(t, nmax)):
+            if t == "mrp" and j % 2:
+                s = [["listeners", LSETS[(j // 2) % len(LSETS)]]] + s
             evaluate(ctx, t, s, cases, "sample" if first else "exhaustive")
             first = False
+        if t == "mrp":
+            for spec in LSETS:
+                evaluate(ctx, t, dispatch_probe(spec), cases, "listener-sets")
         for i in range(rnd_n):
             s = random_script(t, ctx.rng, 5)
             evaluate(ctx, t, s, cases, "sample" if i == 0 else "random")
@@ -1234,6 +1375,21 @@ def run(ctx):
                    "Definition cases : list (%s) := [\n%s\n].\n"
                    "Eval vm_compute in (bad_indices %s cases).\n" % (ty, ";\n".join(c[1] for c in chunk), fn))
             items.append((name, txt))
+    # what each listener saw vs dispatch_calls
+    dc = []
+    for (case, errs) in cases.get("mrp", []):
+        for term in dispatch_cases(case):
+            dc.append((case, term))
+    ctx.count("mrp:dispatch-calls-compared", len(dc))
+    dper = 2000
+    for i in range(0, len(dc), dper):
+        chunk = dc[i:i + dper]
+        name = "dispatch_%03d" % (i // dper)
+        index[name] = chunk
+        items.append((name, "From Coq Require Import List NArith. Import ListNotations.\n"
+                            "From PV Require Import Common.Cases C03.Model.\n"
+                            "Definition cases : list (list (bool * nat) * list nat) := [\n%s\n].\n"
+                            "Eval vm_compute in (bad_indices disp_check cases).\n" % ";\n".join(c[1] for c in chunk)))
     res = common.coq_run_many(items, ctx.pid)
     for name, (rc, out) in sorted(res.items()):
         bad = common.parse_eval_nat_list(out) if rc == 0 else None
